@@ -103,6 +103,15 @@ fn read_capped(r: &mut impl Read) -> Vec<u8> {
 
 /// Spawn `exe args`, feed `stdin` in writes of the given sizes (cycled; empty = one write).
 pub fn run(exe: &Path, args: &[String], cwd: Option<&Path>, stdin: &[u8], chunks: &[usize], timeout: Duration) -> Result<RealOut, String> {
+    run_inner(exe, args, None, cwd, stdin, chunks, timeout)
+}
+
+/// Like `run`, with one extra trailing argument given as raw OS bytes (file names that are not UTF-8).
+pub fn run_os(exe: &Path, args: &[String], last: Option<&std::ffi::OsStr>, stdin: &[u8], chunks: &[usize], timeout: Duration) -> Result<RealOut, String> {
+    run_inner(exe, args, last, None, stdin, chunks, timeout)
+}
+
+fn run_inner(exe: &Path, args: &[String], last: Option<&std::ffi::OsStr>, cwd: Option<&Path>, stdin: &[u8], chunks: &[usize], timeout: Duration) -> Result<RealOut, String> {
     let t0 = Instant::now();
     let mut cmd;
     if std::env::var("VERIF_NO_ULIMIT").is_err() {
@@ -112,6 +121,9 @@ pub fn run(exe: &Path, args: &[String], cwd: Option<&Path>, stdin: &[u8], chunks
     } else {
         cmd = Command::new(exe);
         cmd.args(args);
+    }
+    if let Some(l) = last {
+        cmd.arg(l);
     }
     cmd.stdin(Stdio::piped()).stdout(Stdio::piped()).stderr(Stdio::piped());
     if let Some(d) = cwd {
